@@ -103,7 +103,7 @@ def _close(a, b, tol=MODEL_TOL):
         elif math.isinf(p) or math.isinf(q):
             if p != q:
                 return False
-        elif abs(p - q) > tol * max(abs(ca), abs(cb), 1e-300):
+        elif abs(p - q) > tol * max(abs(ca.real), abs(ca.imag), abs(cb.real), abs(cb.imag), 1e-300):
             return False
     return True
 
